@@ -49,7 +49,12 @@ import (
 type newFSMFunc func(datastore.Batching, fsm.Parameters, versioning.VersionedMigrationList, versioning.VersionKey) (fsm.Group, func(context.Context) error, error)
 
 // verifFSM is the native seam: channels.New calls verifFSM(real)(...) in replay builds.
-func verifFSM(real newFSMFunc) newFSMFunc { return verifNewVersionedFSM }
+func verifFSM(real newFSMFunc) newFSMFunc {
+	if verifUseRealFSM {
+		return real // only the model-validation driver (modelcheck.go) asks for the real group
+	}
+	return verifNewVersionedFSM
+}
 
 // verifAddLog replaces the observability log (time stamps, formatting) in the engine.
 func verifAddLog(cs *internal.ChannelState, msg string, a ...interface{}) {}
